@@ -277,6 +277,10 @@ class Impl:
         if root:
             self.app.document_root = root
             self.app.document_index = index
+        elif mode:
+            # the feature switched off explicitly: '' is not a directory
+            self.app.document_root = ""
+            self.app.document_index = index
         self.state = {}
         self.hid = {}
         self.outcomes = []
@@ -667,6 +671,11 @@ def ops_of(chosen, filters, masks, default, order):
     return ops
 
 
+CWD_PATHS = ["/" + name for name in sorted(os.listdir("."))
+             if name.isascii() and name.replace(".", "").replace(
+                 "_", "").isalnum()][:3] + ["/etc/hostname", "/etc"]
+
+
 def probes_for(rng, samples, quick, fs_paths, exact=()):
     paths = []
     for smp in samples:
@@ -678,6 +687,9 @@ def probes_for(rng, samples, quick, fs_paths, exact=()):
     paths.extend(fs_paths)
     paths.append("/debug-info")
     paths.extend(["/gone", "/gone2/a"])
+    # entries of the process's working directory and of the file-system
+    # root: never served unless that is the configured document root
+    paths.extend(CWD_PATHS)
     seen, out = set(), []
     for path in paths:
         if path in seen:
